@@ -21,9 +21,11 @@ theorem CountsSound_iff (m : CoinMap) : CountsSound m ↔ CountsOk m := Iff.rfl
 def maxDoscReward (d ds : Nat) : Nat :=
   (TIP910_WORK_FACTOR * 2 ^ d) * (TIP910_SPEED_FACTOR * 2 ^ d) * MICRO_CONVERTER / (ds ^ 2 * REWARD_DIVISOR)
 
-/-- what is assumed of the state a batch is applied to — everything but `powTotal`, `weights` and
+/-- what is assumed of the state a batch is applied to — everything but `powTotal` and
     `rewardFits` (explicitly excluded findings) holds of states reachable from a genesis whose
-    per-denomination supply stays below 2^127 -/
+    per-denomination supply stays below 2^127.  (Until the fix for F19 there was a third excluded finding, a field
+    `weights : ∀ t ∈ txs, (t.covenants.map covenantWeightFromBytes).sum ≤ U128_MAX`; `loadRelevantCoins` now
+    rejects a batch with a transaction violating it — `C09_heavy_covenants_rejected` — so it is not assumed.) -/
 structure ApplyPre (env : Env) (s : State) (txs : List Tx) : Prop where
   counts : CountsSound s.coins
   /-- the coins the batch creates are new -/
@@ -42,8 +44,6 @@ structure ApplyPre (env : Env) (s : State) (txs : List Tx) : Prop where
   /-- `melpow::Proof::verify` returns `false` for every difficulty above 100; without this the model's
       oracle could accept a difficulty ≥ 128, for which `2u128.pow(difficulty)` overflows -/
   powDifficulty : ∀ a b c d, env.powOk a b c d ≠ .invalid → c ≤ 100
-  /-- known finding F19: the plain sum of covenant weights (dependency crate) can overflow — excluded -/
-  weights : ∀ t ∈ txs, (t.covenants.map covenantWeightFromBytes).sum ≤ U128_MAX
   /-- finding (see `C09_reward_overflow_witness`): `calculate_reward` saturates at `u128::MAX` and
       `dosc_to_erg` then multiplies by an inflator > 1 and panics.  Excluded: every difficulty the MelPoW
       oracle accepts is so small against the previous DOSC speed that even the largest possible reward,
@@ -52,11 +52,11 @@ structure ApplyPre (env : Env) (s : State) (txs : List Tx) : Prop where
     microergsIter s.height * maxDoscReward d hdr.doscSpeed / MICRO_CONVERTER ≤ U128_MAX
 
 /-- **applying is total**: for every batch of arbitrary transactions the result is the new state or a
-    rejection, never a crash -/
+    rejection, never a crash — in particular whatever the covenant weights of the transactions add up to (F19) -/
 theorem C09_apply_total (env : Env) (s : State) (txs : List Tx) (fb : Header) (hp : ApplyPre env s txs) :
     ∀ c, applyBatch env s txs fb ≠ .crash c :=
   applyBatch_noCrash env s txs fb ((CountsSound_iff _).mp hp.counts) hp.fresh hp.heights hp.bounded hp.speeds
-    hp.historyBelow hp.powTotal hp.powDifficulty hp.weights hp.rewardFits
+    hp.historyBelow hp.powTotal hp.powDifficulty hp.rewardFits
 
 /-- the first phases never crash, whatever the state and the transactions -/
 theorem C09_load_total (s : State) (txs : List Tx) : ∀ c, loadRelevantCoins s txs ≠ .crash c :=
@@ -76,6 +76,81 @@ theorem C09_scripts_total (env : Env) (i : Nat) (id : CoinID) (tx : Tx) (coin : 
 theorem C09_mel_total_guard (s : State) (txs : List Tx) (tx : Tx) (htx : tx ∈ txs) (hbad : tx.melTotalFits = false) :
     loadRelevantCoins s txs = .reject .malformedTx :=
   loadRelevantCoins_malformed s txs tx htx (by simp [hbad])
+
+/-- … and so is a transaction whose covenant weights do not add up within a u128 (F19): `loadRelevantCoins`
+    answers `MalformedTx` … -/
+theorem C09_heavy_covenants_load_rejected (s : State) (txs : List Tx) (tx : Tx) (htx : tx ∈ txs)
+    (hbad : tx.covWeightsFit = false) :
+    loadRelevantCoins s txs = .reject .malformedTx :=
+  loadRelevantCoins_heavy s txs tx htx hbad
+
+/-- … hence so does `applyBatch`, which starts with `loadRelevantCoins`: the batch is rejected, under no
+    assumption whatever on the state, the oracles or the other transactions; `Tx.weight` is never evaluated -/
+theorem C09_heavy_covenants_rejected (env : Env) (s : State) (txs : List Tx) (fb : Header) (tx : Tx) (htx : tx ∈ txs)
+    (hbad : tx.covWeightsFit = false) :
+    applyBatch env s txs fb = .reject .malformedTx := by
+  unfold applyBatch
+  rw [loadRelevantCoins_heavy s txs tx htx hbad]
+  rfl
+
+/-- conversely every transaction of an accepted batch has covenant weights adding up within a u128, so its
+    `Tx.weight` is a value (the hypothesis the fee theorems of C05 would otherwise need) -/
+theorem C09_accepted_weights_fit (env : Env) (s s' : State) (txs : List Tx) (fb : Header)
+    (h : applyBatch env s txs fb = .ok s') (tx : Tx) (htx : tx ∈ txs) :
+    (tx.covenants.map covenantWeightFromBytes).sum ≤ U128_MAX ∧ ∃ w, tx.weight = .ok w := by
+  obtain ⟨rel, _, _, hrel, _⟩ := applyBatch_ok h
+  have hw : (tx.covenants.map covenantWeightFromBytes).sum ≤ U128_MAX := by
+    simpa [Tx.covWeightsFit] using ((loadRelevantCoins_ok hrel).1 tx htx).2.2
+  refine ⟨hw, satAdd128 (satAdd128 tx.rawLen (tx.covenants.map covenantWeightFromBytes).sum)
+    (tx.outputs.length * 1000) - tx.inputs.length * 1000, ?_⟩
+  unfold Tx.weight
+  exact if_neg (Nat.not_lt.mpr hw)
+
+/-- the crash branch of `Tx.weight` itself is still there (the dependency crate is unchanged): a transaction
+    failing `covWeightsFit` makes it panic; only the guard in `loadRelevantCoins` keeps it out of reach -/
+theorem C09_old_weight_sum_crash_of (tx : Tx) (hbad : tx.covWeightsFit = false) :
+    tx.weight = .crash "melstructs: covenant weight sum overflow" := by
+  have h : (tx.covenants.map covenantWeightFromBytes).sum > U128_MAX := by
+    simpa [Tx.covWeightsFit] using hbad
+  unfold Tx.weight
+  exact if_pos h
+
+namespace C09Witness
+open Mel.VM
+
+/-- nine nested loops of 65535 iterations around a `noop`: mathematical weight about 2^144 -/
+def heavyOps : List Op :=
+  [.loop 65535 9, .loop 65535 8, .loop 65535 7, .loop 65535 6, .loop 65535 5, .loop 65535 4, .loop 65535 3,
+   .loop 65535 2, .loop 65535 1, .noop]
+
+/-- its 46 bytes -/
+def heavyCov : Bytes :=
+  [encLoop, 255, 255, 0, 9, encLoop, 255, 255, 0, 8, encLoop, 255, 255, 0, 7, encLoop, 255, 255, 0, 6,
+   encLoop, 255, 255, 0, 5, encLoop, 255, 255, 0, 4, encLoop, 255, 255, 0, 3, encLoop, 255, 255, 0, 2,
+   encLoop, 255, 255, 0, 1, encNoop]
+
+/-- a transaction carrying that covenant twice -/
+def heavyTx : Tx := {
+  kind := .normal, inputs := [], outputs := [], fee := 0, covenants := [heavyCov, heavyCov],
+  data := [], sigs := [], hash := [], rawLen := 0, covHashes := [] }
+
+end C09Witness
+
+open C09Witness in
+/-- a concrete witness: the 46-byte covenant `heavyCov` decodes (to nine nested `loop 65535` around a `noop`) and
+    has saturated weight `u128::MAX`; a well-formed transaction carrying it twice fails `covWeightsFit`, its
+    `Tx.weight` panics — and every batch containing it is rejected with `MalformedTx` -/
+theorem C09_old_weight_sum_crash :
+    VM.encodeAll heavyOps = some heavyCov ∧ VM.decodeAll heavyCov = some heavyOps ∧
+    covenantWeightFromBytes heavyCov = U128_MAX ∧
+    heavyTx.isWellFormed = true ∧ heavyTx.melTotalFits = true ∧ heavyTx.covWeightsFit = false ∧
+    heavyTx.weight = .crash "melstructs: covenant weight sum overflow" ∧
+    ∀ (env : Env) (s : State) (txs : List Tx) (fb : Header), heavyTx ∈ txs →
+      applyBatch env s txs fb = .reject .malformedTx := by
+  have hbad : heavyTx.covWeightsFit = false := by decide +kernel
+  exact ⟨by decide +kernel, by decide +kernel, by decide +kernel, by decide +kernel, by decide +kernel, hbad,
+    C09_old_weight_sum_crash_of _ hbad,
+    fun env s txs fb htx => C09_heavy_covenants_rejected env s txs fb heavyTx htx hbad⟩
 
 /-- a DoscMint without inputs never reaches `expect(inputs[0])`: the balance check has already rejected it
     (its MEL total — at least the fee entry — has no input to match) -/
@@ -158,7 +233,6 @@ theorem C09_pre_nonvacuous (env : Env) (s : State) (hc : s.coins = {}) (hh : s.h
   historyBelow := fun h hdr hg => by rw [hh] at hg; cases hg
   powTotal := fun a b c d => by rw [hpow]; decide
   powDifficulty := fun a b c d h => absurd (hpow a b c d) h
-  weights := fun t ht => by cases ht
   rewardFits := fun hdr _ a b d t h => absurd (hpow a b d t) h
 
 end Mel
@@ -168,6 +242,11 @@ end Mel
 #print axioms Mel.C09_stake_info_total
 #print axioms Mel.C09_scripts_total
 #print axioms Mel.C09_mel_total_guard
+#print axioms Mel.C09_heavy_covenants_load_rejected
+#print axioms Mel.C09_heavy_covenants_rejected
+#print axioms Mel.C09_accepted_weights_fit
+#print axioms Mel.C09_old_weight_sum_crash_of
+#print axioms Mel.C09_old_weight_sum_crash
 #print axioms Mel.C09_doscmint_has_input
 #print axioms Mel.C09_reward_overflow_witness
 #print axioms Mel.C09_doscmint_reward_crash
